@@ -64,6 +64,68 @@ func runC09(p *Prog, r *Report) {
 	if want("C09.8") {
 		ruleCloseOrder(p, r, "C09.8")
 	}
+	if want("C09.9") {
+		ruleParkedWritersAnswered(p, r, "C09.9")
+	}
+}
+
+// ruleParkedWritersAnswered: a writer that was received by a leader but did not fit its group
+// (overflow) waits on writeMergedC and on nothing else — not on closeC, not on the error channels.
+// Its only way out is the leader's hand-off in unlockWrite, which therefore must happen on EVERY
+// exit of the leader, whatever the group's result.
+func ruleParkedWritersAnswered(p *Prog, r *Report, rule string) {
+	r.Begin(rule, "E-GUARD", "every parked writer is answered: unlockWrite sends the deferred reply (writeMergedC <- false, which also hands over the lock) whenever overflow is set — independent of the group's result — and releases the lock otherwise; every exit of writeLocked after the merge loop goes through unlockWrite", 3)
+	defer r.End()
+	if fn := resolveFn(p, r, "leveldb", "(*DB).unlockWrite"); fn != nil {
+		overflow := boolAtom("overflow", mParam("overflow"))
+		handoff := func(in ssa.Instruction) bool {
+			s, ok := in.(*ssa.Send)
+			if !ok || !isFieldLoad(s.Chan, tDB, "writeMergedC") {
+				return false
+			}
+			bv, ok := constBool(s.X)
+			return ok && !bv
+		}
+		release := evRecvOn(tDB, "writeLockC")
+		checkGuardExact(p, r, GuardSpec{Rule: "overflow-writer-answered", Fn: fn, Target: handoff, TargetDesc: "the parked overflow writer gets its reply (and the lock)", Atoms: []Atom{overflow}, G: func(a []bool) bool { return a[0] }, GDesc: "overflow"}, isReturn, "return")
+		checkGuardExact(p, r, GuardSpec{Rule: "lock-released-without-overflow", Fn: fn, Target: release, TargetDesc: "the write lock is released", Atoms: []Atom{overflow}, G: func(a []bool) bool { return !a[0] }, GDesc: "¬overflow"}, isReturn, "return")
+		// the decision depends on overflow alone (not on err / merged)
+		r.Site(1)
+		dep := ""
+		instrs(fn, func(b *ssa.BasicBlock, _ int, in ssa.Instruction) {
+			if !handoff(in) && !release(in) {
+				return
+			}
+			// every If that dominates this instruction's block (walk idom chain) tests overflow or the ack loop bound
+			for d := b; d != nil; d = d.Idom() {
+				id := d.Idom()
+				if id == nil {
+					break
+				}
+				iff, ok := id.Instrs[len(id.Instrs)-1].(*ssa.If)
+				if !ok {
+					continue
+				}
+				// is d control dependent on iff (only one successor reaches d)? approximate: d is a successor
+				isSucc := id.Succs[0] == d || id.Succs[1] == d
+				if !isSucc {
+					continue
+				}
+				c := iff.Cond
+				if u, ok := c.(*ssa.UnOp); ok {
+					c = u.X
+				}
+				if mParam("overflow")(c) {
+					continue
+				}
+				if bo, ok := c.(*ssa.BinOp); ok && (mParam("merged")(bo.X) || mParam("merged")(bo.Y)) {
+					continue // the ack loop bound i < merged
+				}
+				dep = p.Pos(iff.Cond.Pos())
+			}
+		})
+		r.Check(dep == "", fnName(fn), "decision-on-overflow-alone", "hand-off vs release is decided by overflow alone", "the hand-off / release also depends on the test at "+dep+" (e.g. the group's result): on that path a parked writer or the lock is forgotten", dep)
+	}
 }
 
 // C09.3: a transaction opened inside the repository and not returned is finished on every exit.
